@@ -212,7 +212,9 @@ impl ParsedFields<'_, '_> {
 
     fn render_source_as_enum_variant_match_arm(&self) -> Option<TokenStream> {
         let source = self.source?;
-        let pattern = self.data.matcher(&[source], &[quote! { source }]);
+        let pattern = self
+            .data
+            .matcher(&[self.data.field_indexes[source]], &[quote! { source }]);
         let expr = render_some(quote! { source });
         Some(quote! { #pattern => #expr })
     }
@@ -252,7 +254,9 @@ impl ParsedFields<'_, '_> {
 
         match self.source {
             Some(source) if source == backtrace => {
-                let pattern = self.data.matcher(&[source], &[quote! { source }]);
+                let pattern = self
+                    .data
+                    .matcher(&[self.data.field_indexes[source]], &[quote! { source }]);
                 Some(quote! {
                     #pattern => {
                         // TODO: Use `derive_more::core::error::Error` once `error_in_core` Rust
@@ -263,7 +267,10 @@ impl ParsedFields<'_, '_> {
             }
             Some(source) => {
                 let pattern = self.data.matcher(
-                    &[source, backtrace],
+                    &[
+                        self.data.field_indexes[source],
+                        self.data.field_indexes[backtrace],
+                    ],
                     &[quote! { source }, quote! { backtrace }],
                 );
                 Some(quote! {
@@ -276,7 +283,10 @@ impl ParsedFields<'_, '_> {
                 })
             }
             None => {
-                let pattern = self.data.matcher(&[backtrace], &[quote! { backtrace }]);
+                let pattern = self.data.matcher(
+                    &[self.data.field_indexes[backtrace]],
+                    &[quote! { backtrace }],
+                );
                 Some(quote! {
                     #pattern => {
                         request.provide_ref::<::std::backtrace::Backtrace>(backtrace);
@@ -343,7 +353,7 @@ fn parse_fields<'input, 'state>(
         add_bound_if_type_parameter_used_in_type(
             &mut parsed_fields.bounds,
             type_params,
-            &state.fields[source].ty,
+            parsed_fields.data.field_types[source],
         );
     }
 
@@ -383,16 +393,17 @@ fn infer_source_field(
     }
 
     // but one of the fields was specified/inferred as backtrace field
-    if let Some(backtrace) = parsed_fields.backtrace {
-        // then infer *other field* as source field
-        let source = (backtrace + 1) % 2;
-        // unless it was explicitly marked as non-source
-        if parsed_fields.data.infos[source].info.source != Some(false) {
-            return Some(source);
-        }
-    }
-
-    None
+    let backtrace = parsed_fields.backtrace?;
+    // then infer *other field* as source field (indexes in `parsed_fields` count only the
+    // non-ignored fields)
+    let other = (parsed_fields.data.field_indexes[backtrace] + 1) % 2;
+    let source = parsed_fields
+        .data
+        .field_indexes
+        .iter()
+        .position(|i| *i == other)?;
+    // unless it was explicitly marked as non-source
+    (parsed_fields.data.infos[source].info.source != Some(false)).then_some(source)
 }
 
 fn parse_fields_impl<'input, 'state, P>(
